@@ -642,6 +642,30 @@ struct InflateSession {
                         aborted = true;
                         return false;
                 }
+                if ((flags & 256) && ret == 0 && bs != ISAL_BLOCK_FINISH && (bs != ISAL_BLOCK_NEW_HDR || st->tmp_out_valid != st->tmp_out_processed)) {
+                        // a dictionary offered in the middle of a block, or while decoded output is still waiting inside the state, has to be
+                        // refused and must leave the state exactly as it was (C17: wrong-state dictionary calls, decompression side)
+                        Slot *sd = g_arena.alloc(24, PLACE_END, "late_inflate_dict", fill + 500, 1);
+                        if (!sd)
+                                return budget();
+                        uint64_t before_hash = state_hash();
+                        int dr = 0;
+                        if (GUARDED(gc, dr = isal_inflate_set_dict(st, sd->data, 24))) {
+                                report_fault(rr, h, gc.fi, "isal_inflate_set_dict (wrong state)");
+                                return false;
+                        }
+                        g_arena.release(sd);
+                        COUNT("fault.inflate_dict_in_wrong_state");
+                        h.rec("late_idict", { bs, dr });
+                        if (dr == 0) {
+                                rr.fail("C17.dict_wrong_state_accepted", strf("isal_inflate_set_dict accepted in block_state %d with %d decoded bytes still waiting inside the state", bs, (int) (st->tmp_out_valid - st->tmp_out_processed)));
+                                return false;
+                        }
+                        if (state_hash() != before_hash) {
+                                rr.fail("C17.dict_refusal_side_effect", "refused isal_inflate_set_dict modified the decoder state");
+                                return false;
+                        }
+                }
                 if (ret == ISAL_NEED_DICT) {
                         COUNT("probe.need_dict");
                         if (dict.empty() || !need_dict_zlib) {
@@ -1071,7 +1095,7 @@ static Json gen_inflate(Rng &r0, const std::string &focus, int tier)
         p.set("fmt", fmt).set("mode", focus == "C19" ? 0 : (int) r.below(4)).set("zlevel", (int) r.below(4)).set("ihb", (int) (r.chance(1, 2) ? 0 : r.chance(1, 4) ? 15 : r.chance(1, 4) ? 1 + r.below(8) : 9 + r.below(6)));
         Json src = Json::obj();
         int kind = (int) r.below(3);
-        bool damaged = focus == "C06" ? r.chance(4, 5) : focus == "C11" ? r.chance(3, 4) : (focus == "C07" || focus == "C19") ? false : r.chance(1, 2);
+        bool damaged = focus == "C06" ? r.chance(4, 5) : focus == "C11" ? r.chance(3, 4) : (focus == "C07" || focus == "C19" || focus == "C17") ? false : r.chance(1, 2);
         uint64_t maxlen = r.chance(1, focus == "C06" ? 6 : 12) ? 150000 : r.chance(1, 3) ? 40000 : 4000;
         Json sdata = gen_data_spec(r, maxlen, 0);
         maybe_adler_worst_case(r, focus, sdata);
@@ -1130,7 +1154,7 @@ static Json gen_inflate(Rng &r0, const std::string &focus, int tier)
         for (uint32_t i = 0; i < nops; i++) {
                 uint32_t feed = gen_chunk(rio, rio.chance(1, 4) ? (int) rio.below(6) : im, big);
                 uint32_t out = gen_chunk(rio, rio.chance(1, 4) ? (int) rio.below(6) : om, big + 64);
-                int flags = (discipline & 1 ? 1 : 0) | (discipline & 2 ? 2 : 0) | (rio.chance(1, 10) ? 4 : 0) | (rio.chance(1, 4) ? 16 : 0) | (rio.chance(1, 4) ? 32 : 0) | (rio.chance(1, 12) ? 64 : 0) | (rio.chance(1, 12) ? 128 : 0);
+                int flags = (discipline & 1 ? 1 : 0) | (discipline & 2 ? 2 : 0) | (rio.chance(1, 10) ? 4 : 0) | (rio.chance(1, 4) ? 16 : 0) | (rio.chance(1, 4) ? 32 : 0) | (rio.chance(1, 12) ? 64 : 0) | (rio.chance(1, 12) ? 128 : 0) | (rio.chance(1, focus == "C17" ? 3 : 12) ? 256 : 0);
                 Json o = Json::arr();
                 o.push(feed).push(out).push(flags);
                 ops.push(o);
